@@ -124,6 +124,19 @@ def check_subrun_split(acc, rows, start, end, t, subruns, case):
                 errs.append(f"concatenate(split(c)) != c: subruns {back.subruns} vs {c.subruns}")
         except Exception as e:  # noqa: BLE001
             errs.append(f"concatenate(split(c)) raised {e!r}")
+    # a finer partition: three pieces handed to ONE concatenate call give the original back as well
+    if not errs and tt > start + 0 and c2.end - c2.start >= 2:
+        try:
+            mid = (c2.start + c2.end) // 2
+            c2a, c2b = c2.split(t=mid, allow_early_split=True)
+            if c2a.end > c2a.start and c2b.end > c2b.start:
+                acc.count("concat_three_pieces")
+                back3 = strax.Chunk.concatenate([c1, c2a, c2b], allow_superrun=True)
+                if (back3.start, back3.end) != (c.start, c.end) or (back3.subruns or {}) != c.subruns \
+                        or back3.data.tobytes() != c.data.tobytes():
+                    errs.append(f"concatenate of three adjacent pieces != original: subruns {back3.subruns} vs {c.subruns}")
+        except Exception as e:  # noqa: BLE001
+            errs.append(f"concatenate of three adjacent pieces of a superrun chunk failed: {e!r}")
     if errs:
         acc.viol("split(subruns)", errs, case)
 
